@@ -54,23 +54,23 @@ def status_const(node, where):
     raise Unsupported("%s: expected ExperimentStatus.<member>, got %s" % (where, u(node)))
 
 
-def status_bool(e, subject, where):
+def status_bool(e, subject, where, allow_h=False):
     """boolean expression over the experiment status -> Coq bool expression in variables s (status)
-    and h ('self._results is not None')"""
+    and, where allowed, h ('self._results is not None')"""
     if isinstance(e, ast.BoolOp):
-        parts = [status_bool(v, subject, where) for v in e.values]
+        parts = [status_bool(v, subject, where, allow_h) for v in e.values]
         return "(" + (" && " if isinstance(e.op, ast.And) else " || ").join(parts) + ")"
     if isinstance(e, ast.UnaryOp) and isinstance(e.op, ast.Not):
-        return "(negb %s)" % status_bool(e.operand, subject, where)
+        return "(negb %s)" % status_bool(e.operand, subject, where, allow_h)
     if isinstance(e, ast.Compare) and len(e.ops) == 1:
         op, lhs, rhs = e.ops[0], e.left, e.comparators[0]
         if u(lhs) == subject + ".status" and isinstance(op, (ast.Eq, ast.Is)):
             return "(status_eqb s %s)" % status_const(rhs, where)
         if u(lhs) == subject + ".status" and isinstance(op, (ast.NotEq, ast.IsNot)):
             return "(negb (status_eqb s %s))" % status_const(rhs, where)
-        if u(lhs) == subject + "._results" and isinstance(op, ast.IsNot) and u(rhs) == "None":
+        if allow_h and u(lhs) == subject + "._results" and isinstance(op, ast.IsNot) and u(rhs) == "None":
             return "h"
-        if u(lhs) == subject + "._results" and isinstance(op, ast.Is) and u(rhs) == "None":
+        if allow_h and u(lhs) == subject + "._results" and isinstance(op, ast.Is) and u(rhs) == "None":
             return "(negb h)"
     if isinstance(e, ast.Call) and u(e) == subject + ".status.is_terminal()":
         return "(gen_is_terminal s)"
@@ -228,9 +228,9 @@ def gen_query_status(cls):
                                              "self._execution_datetime = json['execution_datetime']",
                                              "self._from_wmi_status(json['status'])", "return self"],
            "from_json: unexpected body")
-    return ("Definition gen_guard (s : status) : guard :=\n  let h := false in\n"
+    return ("Definition gen_guard (s : status) : guard :=\n  "
             "  if %s then GRefuse else if %s then GReturn else GRequest.\n" % (c1, c2)
-            + "Definition gen_store (s : status) : bool := let h := false in %s.\n" % c3)
+            + "Definition gen_store (s : status) : bool := %s.\n" % c3)
 
 
 def gen_results(cls):
@@ -254,8 +254,8 @@ def gen_results(cls):
     expect(u(b[4]) == "scheduler.run()", "results: scheduler.run()")
     tail = single_if_return(b[5], "self._results", "results")
     expect(isinstance(b[6], ast.Return) and u(b[6].value) == "None", "results: final return None")
-    out += "Definition gen_fast_b (h : bool) (s : status) : bool := %s.\n" % status_bool(fast, "self", "results")
-    out += "Definition gen_tail_b (s : status) : bool := let h := false in %s.\n" % status_bool(tail, "self", "results")
+    out += "Definition gen_fast_b (h : bool) (s : status) : bool := %s.\n" % status_bool(fast, "self", "results", True)
+    out += "Definition gen_tail_b (s : status) : bool := %s.\n" % status_bool(tail, "self", "results")
     # awaiting
     fn = find_func(cls, "wait_for_results")
     expect(isinstance(fn, ast.AsyncFunctionDef), "wait_for_results: must be a coroutine function")
@@ -268,8 +268,8 @@ def gen_results(cls):
            "wait_for_results: poll loop")
     tail = single_if_return(b[2], "self._results", "wait_for_results")
     expect(isinstance(b[3], ast.Return) and u(b[3].value) == "None", "wait_for_results: final return None")
-    out += "Definition gen_fast_a (h : bool) (s : status) : bool := %s.\n" % status_bool(fast, "self", "wait_for_results")
-    out += "Definition gen_tail_a (s : status) : bool := let h := false in %s.\n" % status_bool(tail, "self", "wait_for_results")
+    out += "Definition gen_fast_a (h : bool) (s : status) : bool := %s.\n" % status_bool(fast, "self", "wait_for_results", True)
+    out += "Definition gen_tail_a (s : status) : bool := %s.\n" % status_bool(tail, "self", "wait_for_results")
     return out
 
 
@@ -295,7 +295,7 @@ def gen_processors():
                "%s._process_response: unexpected body" % cname)
         conds.append(status_bool(pr[1].test, "experiment", cname + "._process_response"))
     expect(conds[0] == conds[1], "the two processors raise on different conditions")
-    return "Definition gen_submit_raises (s : status) : bool := let h := false in %s.\n" % conds[0]
+    return "Definition gen_submit_raises (s : status) : bool := %s.\n" % conds[0]
 
 
 def gen_retry():
